@@ -26,8 +26,12 @@ type c20Grammar struct {
 
 // c20Options returns one of the option vectors within the property's scope:
 // fixWhitespace (with any reported skipped tokens) or no reported skipped tokens.
-func c20Options(r *rand.Rand, g *recgram.Grammar, v int, forceInject bool) (o recgram.TextOpts, key string, ast bool, fileNode string) {
-	o.Opts = append(o.Opts, tableOpts(r.Intn(8))...)
+func c20Options(r *rand.Rand, g *recgram.Grammar, v int, forceInject, forceMinimize bool) (o recgram.TextOpts, key string, ast bool, fileNode string) {
+	tv := r.Intn(8)
+	if forceMinimize {
+		tv |= 4
+	}
+	o.Opts = append(o.Opts, tableOpts(tv)...)
 	o.Comment = true
 	fix := v%3 != 2
 	if fix {
@@ -65,6 +69,10 @@ func c20Options(r *rand.Rand, g *recgram.Grammar, v int, forceInject bool) (o re
 			o.Opts = append(o.Opts, fmt.Sprintf("fileNode = %q", a))
 			key += "+filenode"
 		}
+	}
+	key += fmt.Sprintf("/tables%d", tv)
+	if tv&4 != 0 {
+		key += "(minimizeDFA)"
 	}
 	return
 }
@@ -190,7 +198,8 @@ func c20Generated(c *fw.Ctx) {
 		if i%4 == 3 {
 			g = recgram.FromCFG(r, gram.RandCFG(r))
 		} else {
-			g = recgram.RandSkeleton(r, recgram.SkelOptions{TrailingNull: true})
+			// the first grammar of a case: trailing nullable + state marker + look-alike sibling, minimizeDFA on
+			g = recgram.RandSkeleton(r, recgram.SkelOptions{TrailingNull: true, TrailingNullMarker: len(gs) == 0})
 		}
 		v := (len(gs) + c.Case) % 6
 		noErr := r.Intn(4) == 0
@@ -199,7 +208,7 @@ func c20Generated(c *fw.Ctx) {
 			// parse then returns with tokens still pending
 			v, noErr = 3*(c.Case%2), true
 		}
-		o, key, ast, fileNode := c20Options(r, g, v, len(gs) == 0)
+		o, key, ast, fileNode := c20Options(r, g, v, len(gs) == 0, len(gs) == 0)
 		o.WithErr = !noErr
 		o.Pkg = fmt.Sprintf("g%04d", len(gs))
 		cg := recgram.Compile(c, g, o)
@@ -228,6 +237,14 @@ func c20Generated(c *fw.Ctx) {
 	var meta []c20Meta
 	for _, g := range gs {
 		c.Count("optvec:"+g.optv, 1)
+		if strings.Contains(g.optv, "minimizeDFA") {
+			c.Count("grammars_minimizeDFA", 1)
+		}
+		for _, f := range g.g.Features {
+			if strings.HasPrefix(f, "trailing-nullable") {
+				c.Count("feature:"+f, 1)
+			}
+		}
 		if g.recover {
 			c.Count("grammars_recovering", 1)
 		} else {
@@ -641,7 +658,7 @@ func c20Run(c *fw.Ctx) {
 func init() {
 	fw.Register(&fw.Check{
 		ID:          "C20",
-		Rule:        "shipped cases: tm, js (3 dialects, 4 entry points), json, test parsers imported from the repository run on test-suite snippets and repository files, mostly with 1-3 text mutations, 'continue always' handler, each input on fresh and on long-lived Parser/TokenStream/Lexer objects; the recorded listener log must satisfy the trace specification (inside the input, not inverted, pairwise disjoint or nested, strict container after its content; checked with a sorted list of maximal intervals). For tm and js the tree of ast.Parse on the same input is read through the public Node API and compared with the log: same node multiset (+File), every non-empty node below the smallest reported strict container (or chained with nodes of equal range), empty nodes below a node containing their offset (inside the smallest node having it in its interior), siblings in source order. Generated cases: recovery grammars (skeleton and random families of C19) under option vectors inside the property's scope - fixWhitespace with reported comments and invalid tokens (lexer-based and tokenStream parsers) or nothing reported without fixWhitespace; half with eventAST (+fileNode) - (statement forms ending in a nullable nonterminal, also followed by a state marker; every case contains a lexer-based parser without recovery that reports comments and invalid tokens) run on sentences with comments and foreign characters, mutants, garbage, each input on a fresh Parser and on long-lived ones shared by consecutive runs (one re-initialised before each parse, one initialised once) (log must be well nested and equal to the fresh one); same log check; eventAST packages: ast.Parse tree vs. log, and the generated builder fed directly with synthetic well-nested streams in hostile legal orders (disjoint nodes out of source order, delayed leaves, equal-range chains, boundary empties). Non-trivial/distinct: grammar with >=20 logs of >=5 events; shipped input with >=5 events",
+		Rule:        "shipped cases: tm, js (3 dialects, 4 entry points), json, test parsers imported from the repository run on test-suite snippets and repository files, mostly with 1-3 text mutations, 'continue always' handler, each input on fresh and on long-lived Parser/TokenStream/Lexer objects; the recorded listener log must satisfy the trace specification (inside the input, not inverted, pairwise disjoint or nested, strict container after its content; checked with a sorted list of maximal intervals). For tm and js the tree of ast.Parse on the same input is read through the public Node API and compared with the log: same node multiset (+File), every non-empty node below the smallest reported strict container (or chained with nodes of equal range), empty nodes below a node containing their offset (inside the smallest node having it in its interior), siblings in source order. Generated cases: recovery grammars (skeleton and random families of C19) under option vectors inside the property's scope - fixWhitespace with reported comments and invalid tokens (lexer-based and tokenStream parsers) or nothing reported without fixWhitespace; half with eventAST (+fileNode) - (all table-option vectors incl. minimizeDFA; statement forms ending in a nullable nonterminal, also followed by a state marker and next to a look-alike rule of the same length and node that ends with a token; every case contains a lexer-based parser without recovery that reports comments and invalid tokens) run on sentences with comments and foreign characters, mutants, garbage, each input on a fresh Parser and on long-lived ones shared by consecutive runs (one re-initialised before each parse, one initialised once) (log must be well nested and equal to the fresh one); same log check; eventAST packages: ast.Parse tree vs. log, and the generated builder fed directly with synthetic well-nested streams in hostile legal orders (disjoint nodes out of source order, delayed leaves, equal-range chains, boundary empties). Non-trivial/distinct: grammar with >=20 logs of >=5 events; shipped input with >=5 events",
 		Assumptions: []string{"the public Node API (Child/Next/Offset/Endoffset/Type) reflects the built tree", "for empty nodes and for nodes of equal range the statement leaves the parent open: any containing parent / either order is accepted"},
 		Cases: func(tier string) int {
 			a, b := c20Layout(tier)
@@ -652,7 +669,7 @@ func init() {
 		CPUBudget:     1200,
 		MinNontrivial: func(tier string) int { return 200 },
 		RequiredCounters: []string{"event_logs_well_nested", "logs_with_recovery", "invalid_token_nodes", "comment_nodes", "empty_nodes",
-			"generated_trees_checked", "generated_trees_after_recovery", "reused_parser_logs_identical_to_fresh", "grammars_without_recovery", "synthetic_streams_built_correctly",
+			"generated_trees_checked", "generated_trees_after_recovery", "reused_parser_logs_identical_to_fresh", "grammars_without_recovery", "grammars_minimizeDFA", "feature:trailing-nullable+lookalike-sibling", "feature:trailing-nullable+marker", "synthetic_streams_built_correctly",
 			"shipped_tm_trees_checked", "shipped_js_trees_checked", "shipped_tm_trees_after_recovery", "shipped_js_trees_after_recovery",
 			"shipped_json_logs_well_nested", "shipped_test_logs_well_nested", "shipped_js_logs_with_recovery", "shipped_tm_logs_with_recovery"},
 	})
